@@ -37,15 +37,16 @@ class PyCore:
         )
         self.observer = rope.base.resourceobserver.FilteredResourceObserver(observer)
         self.project.add_observer(self.observer)
-        # A new module or package can make an import resolvable that was
-        # not; no cached module reports that, so what was concluded so far
-        # has to be forgotten
-        created_observer = rope.base.resourceobserver.ResourceObserver(
-            created=self._forget_concluded_data, validate=self._forget_concluded_data
+        # A new, moved or removed module or package changes what an import
+        # resolves to; no cached module reports that, so what was concluded
+        # so far has to be forgotten
+        callback = self._forget_concluded_data
+        structure_observer = rope.base.resourceobserver.ResourceObserver(
+            created=callback, moved=callback, removed=callback, validate=callback
         )
-        self.project.add_observer(created_observer)
+        self.project.add_observer(structure_observer)
 
-    def _forget_concluded_data(self, resource):
+    def _forget_concluded_data(self, resource, new_resource=None):
         self.module_cache.forget_all_data()
 
     def _init_automatic_soa(self):
